@@ -174,11 +174,17 @@ def run(ctx):
                 ds = _rdq(gsq, at, e.id, with_params=True, edge_ok=eo_b)
                 return bool(ds) and all(d is not gsq.entry and _vdq(d, e.id) is not None and null_here(_vdq(d, e.id), d, depth + 1) for d in ds)
             return False
+        carriers = {b}                      # the bound and the locals computed from it (`start_sql = [..] if start is None else start`)
+        for _i in range(3):
+            for st_ in walk_no_nested(sq.node):
+                if isinstance(st_, ast.Assign) and any(isinstance(n_, ast.Name) and n_.id in carriers for n_ in ast.walk(st_.value)) \
+                        and not any(isinstance(c_, ast.Call) and dotted(c_.func) == 'builder' and not any(isinstance(n_, ast.Name) and n_.id in carriers for n_ in ast.walk(c_)) for c_ in ast.walk(st_.value)):
+                    carriers |= {t.id for t in st_.targets if isinstance(t, ast.Name)}
         found = False
         for x in gsq.nodes:
             if x.ast is None or x.kind != 'stmt': continue
             for c in x.calls():
-                if dotted(c.func) == 'builder' and len(c.args) == 1 and any(isinstance(n_, ast.Name) and n_.id == b for n_ in ast.walk(c.args[0])):
+                if dotted(c.func) == 'builder' and len(c.args) == 1 and any(isinstance(n_, ast.Name) and n_.id in carriers for n_ in ast.walk(c.args[0])):
                     found = True
                     if not null_here(c.args[0], x): okb = False; whyb = 'for an omitted `%s` the builder is given `%s`, which is not [\'VALUE\', None]' % (b, norm(c.args[0])[:50])
         if not found: okb = False; whyb = whyb or 'no builder(..) call receives `%s`' % b
